@@ -288,6 +288,11 @@ def run(prop, res, tier, seed):
     except Broken as b:
         res.add_broken(b.what, b.detail)
     run_sweeps(res, tier, seed, prop)
+    if prop == "C20":
+        # the ranges as the server SENDS them (after the conversion to line / column in the negotiated position encoding):
+        # sliced in the editor's copy they must be the identifier
+        import p_text
+        p_text.run_c14_e2e(res, tier, seed, prop="C20")
 
 
 def replay(prop, path):
